@@ -75,7 +75,7 @@ def assemble(p, extra_util='', extra_bookkeeping='', extra_portfolio='', extra_t
 
 def build(ctx):
     p = parts(ctx)
-    return shim('base') + "verus! {\n" + assemble(p) + "} // verus!\nfn main() {}\n"
+    return shim('base', 'std') + "verus! {\n" + assemble(p) + "} // verus!\nfn main() {}\n"
 
 
 # default property tags of a function (first match wins); clause markers (//@ ...) in the overlay take precedence
